@@ -318,3 +318,73 @@ Definition cmp_generate (c : gen_case) : list (nat * nat) :=
         end
       else match mine with [] => [] | _ => [(5%nat, gb_id b)] end) bs ++
   (if Nat.eqb (length (gc_loads c)) (length (filter gb_loaded bs)) then [] else [(5%nat, 0%nat)]).
+
+(* ---- stage A: the definition reader ---- *)
+From Coq Require Import String.
+From Inkfem Require Import Model.Regex Gen.GenRegex Model.Read.
+Record o_bar := {
+  ob_id : string; ob_n1 : string; ob_l1 : link; ob_n2 : string; ob_l2 : link;
+  ob_mat : string; ob_matv : list Q; ob_sec : string; ob_secv : list Q;
+  ob_cl : list (cload Q); ob_dl : list (dload Q) }.
+Record read_case := {
+  rc_text : string;
+  rc_panic : nat;                                   (* 0 = parsed; otherwise the class of the panic message *)
+  rc_major : nat; rc_minor : nat;
+  rc_nodes : list (string * Q * Q * link * option (nat * nat * nat));
+  rc_bars : list o_bar }.
+
+Definition err_code (e : rerr) : nat :=
+  match e with
+  | EVersion => 1 | EUnknownHeader => 2 | ENode => 3 | EMaterial => 4 | ESection => 5 | ELoad => 6 | ETerm => 7
+  | EBar => 8 | ENumber => 9 | ENoStart => 10 | ENoEnd => 11 | ENoSection => 12 | ENoMaterial => 13 | ELoadUnknownBar => 14
+  end%nat.
+
+(* a float64 the implementation parsed vs the exact decimal value of the text: correct rounding *)
+Definition is_rounding_of (go exact : Q) : bool :=
+  Qle_bool (Qabs (go - exact)) (Qabs exact * (1 # 9007199254740992) + (1 # 1000000000000000000) * (1 # 1000000000000000000) *
+                                                                     (1 # 1000000000000000000) * (1 # 1000000000000000000)).
+Definition all_round (go exact : list Q) : bool :=
+  Nat.eqb (List.length go) (List.length exact) && forallb (fun p => is_rounding_of (fst p) (snd p)) (combine go exact).
+Definition link_eqb (a b : link) : bool :=
+  Bool.eqb (lk_dx a) (lk_dx b) && Bool.eqb (lk_dy a) (lk_dy b) && Bool.eqb (lk_rz a) (lk_rz b).
+Definition dof_eqb (a b : option (nat * nat * nat)) : bool :=
+  match a, b with
+  | None, None => true
+  | Some (x, y, z), Some (x', y', z') => Nat.eqb x x' && Nat.eqb y y' && Nat.eqb z z'
+  | _, _ => false
+  end.
+Definition cload_round (go m : cload Q) : bool :=
+  term_eqb (cl_term go) (cl_term m) && Bool.eqb (cl_local go) (cl_local m) &&
+  is_rounding_of (cl_t go) (cl_t m) && is_rounding_of (cl_v go) (cl_v m).
+Definition dload_round (go m : dload Q) : bool :=
+  term_eqb (dl_term go) (dl_term m) && Bool.eqb (dl_local go) (dl_local m) &&
+  is_rounding_of (dl_t0 go) (dl_t0 m) && is_rounding_of (dl_v0 go) (dl_v0 m) &&
+  is_rounding_of (dl_t1 go) (dl_t1 m) && is_rounding_of (dl_v1 go) (dl_v1 m).
+Definition list_all2 {A B} (f : A -> B -> bool) (a : list A) (b : list B) : bool :=
+  Nat.eqb (List.length a) (List.length b) && forallb (fun p => f (fst p) (snd p)) (combine a b).
+
+(* mismatch codes: (1, model class, observed class) verdict; (2, _, _) version; (3, k, _) node k (observed order);
+   (4, count, _) node count; (5, k, field) bar k; (6, count, _) bar count *)
+Definition cmp_read (c : read_case) : list (nat * nat * nat) :=
+  match read_def (rc_text c) with
+  | Err e => if Nat.eqb (err_code e) (rc_panic c) then [] else [(1, err_code e, rc_panic c)%nat]
+  | Ok s =>
+    if negb (Nat.eqb (rc_panic c) 0) then [(1, 0, rc_panic c)%nat] else
+    (if Nat.eqb (st_major s) (rc_major c) && Nat.eqb (st_minor s) (rc_minor c) then [] else [(2, st_major s, st_minor s)%nat]) ++
+    (if Nat.eqb (List.length (st_nodes s)) (List.length (rc_nodes c)) then [] else [(4, List.length (st_nodes s), 0)%nat]) ++
+    flat_map (fun p => let '(id, x, y, lk, dof) := snd p in
+        match lookup_by rn_id id (st_nodes s) with
+        | Some n => if is_rounding_of x (rn_x n) && is_rounding_of y (rn_y n) && link_eqb lk (rn_c n) && dof_eqb dof (rn_dof n)
+                    then [] else [(3, fst p, 1)%nat]
+        | None => [(3, fst p, 0)%nat]
+        end) (indexed (rc_nodes c)) ++
+    (if Nat.eqb (List.length (st_bars s)) (List.length (rc_bars c)) then [] else [(6, List.length (st_bars s), 0)%nat]) ++
+    flat_map (fun p => let m := fst (snd p) in let o := snd (snd p) in let b := lb_bar m in
+        (if String.eqb (rb_id b) (ob_id o) && String.eqb (rb_n1 b) (ob_n1 o) && String.eqb (rb_n2 b) (ob_n2 o) &&
+            link_eqb (rb_l1 b) (ob_l1 o) && link_eqb (rb_l2 b) (ob_l2 o) then [] else [(5, fst p, 1)%nat]) ++
+        (if String.eqb (rm_name (lb_material m)) (ob_mat o) && all_round (ob_matv o) (rm_vals (lb_material m)) then [] else [(5, fst p, 2)%nat]) ++
+        (if String.eqb (rs_name (lb_section m)) (ob_sec o) && all_round (ob_secv o) (rs_vals (lb_section m)) then [] else [(5, fst p, 3)%nat]) ++
+        (if list_all2 cload_round (ob_cl o) (lb_cl m) then [] else [(5, fst p, 4)%nat]) ++
+        (if list_all2 dload_round (ob_dl o) (lb_dl m) then [] else [(5, fst p, 5)%nat]))
+      (indexed (combine (st_bars s) (rc_bars c)))
+  end.
